@@ -582,7 +582,8 @@ def result_lattice(ctx):
         bool(walk_extra) and all(eq_member(e, 'not_now') and
                                  not eq_member(e, 'include')
                                  for e in walk_extra) and \
-        has(ret, "['auto_file']") and not has(ret, "['generic_file']")
+        has(direct(ret), "['auto_file']") and not has(
+            direct(ret), "['generic_file']")
     ctx.ob(R, 'find_from_filter|include->results,not_now->dist-only', ok,
            fff.node, 'the include/not_now split changed')
     # FileFilter._match_globs: exclude first, then include, then extra
